@@ -18,7 +18,6 @@
 package c11
 
 import (
-	"strconv"
 	"bufio"
 	"bytes"
 	"crypto/sha1"
@@ -31,6 +30,7 @@ import (
 	"net/http"
 	"net/url"
 	"sort"
+	"strconv"
 	"strings"
 	"sync/atomic"
 
@@ -627,7 +627,7 @@ type Case struct {
 	// Stale (pairs): the server closes the kept-alive connection after the first exchange; the second request is written
 	// to the dead connection first and - if the client retries it - again to a new connection. Whatever reaches the new
 	// connection must be the complete second request (or Do reports an error).
-	Stale bool `json:"stale,omitempty"`
+	Stale bool      `json:"stale,omitempty"`
 	Resp  *RespCase `json:"resp,omitempty"`
 }
 
@@ -1016,6 +1016,9 @@ type RespCase struct {
 	NoNorm   bool `json:"no_norm"`
 	Deliver  int  `json:"deliver"` // 0 one segment, 1 segments of 1460 bytes, 2 head | body, 3 head minus its last byte | ... | last byte, 4 segments of 4096 bytes
 	Second   int  `json:"second"`  // index into seconds: the response of the following exchange
+	// Skip: the caller sets Response.SkipBody for the first exchange (it wants status and header only); that exchange
+	// is judged by "no panic" alone, the following exchange on the same client must come back intact
+	Skip bool `json:"skip,omitempty"`
 }
 
 func (r RespCase) String() string {
@@ -1352,11 +1355,20 @@ func (w *worker) runResponse(rc RespCase) (vs []violation, outcome string) {
 	w.cl.Reset(sc, sc2)
 	defer w.cl.Reset()
 
+	w.cl.SkipBodyOnce = rc.Skip
 	o := w.cl.Do(requestFor(rc, "r1"))
-	outcome = judgeResponse(rc, ex, o, wire, fmt.Sprintf("response {%v}", rc), func(kind, extra, msg string) {
-		_ = extra
-		vs = append(vs, violation{"response|" + kind + "|" + feat, msg})
-	})
+	if rc.Skip {
+		feat += "|skip-body"
+		outcome = "skip"
+		if o.Panic != "" {
+			vs = append(vs, violation{"response|panic|" + feat, fmt.Sprintf("response {%v} with Response.SkipBody: panic %s", rc, o.Panic)})
+		}
+	} else {
+		outcome = judgeResponse(rc, ex, o, wire, fmt.Sprintf("response {%v}", rc), func(kind, extra, msg string) {
+			_ = extra
+			vs = append(vs, violation{"response|" + kind + "|" + feat, msg})
+		})
+	}
 	// second exchange: whatever happened, the next response must come back intact
 	hc.MaxResponseBodySize = 0
 	o2 := w.cl.Do(requestFor(rc2, "r2"))
@@ -1427,6 +1439,7 @@ func pairCases(thorough bool) []Case {
 		{Method: "PUT", URL: 1, Hdr: hCookie, Body: bodySpec{bStreamUnknown, 4097, 1}},
 		{Method: "POST", URL: 4, Hdr: hRepeat, Body: bodySpec{bMultipartFile, 0, 0}},
 		{Method: "POST", URL: 5, Hdr: hHost, Body: bodySpec{bForm, 0, 0}},
+		{Method: "POST", URL: 4, Hdr: hNone, Body: bodySpec{bMultipart, 0, 0}}, // fields only, one of them from a reader
 	}
 	firstM := []string{"POST", "GET", "HEAD"}
 	firstU := []int{0, 4}
@@ -1504,6 +1517,12 @@ func responseCases(thorough bool) []Case {
 								for sec := range seconds {
 									rc := RespCase{Framing: f.framing, Status: f.status, Size: n, Part: f.part, Trailers: f.trailers, Hdr: hdr, Stream: stream, Max: max, NoNorm: nonorm, Deliver: d, Second: sec}
 									out = append(out, Case{Side: "response", Resp: &rc})
+									if hdr == 0 && max == 0 && !nonorm && (d == 0 || d == 2) && (n == 0 || n == 2 || n == 4097) {
+										// the caller does not want this body (Response.SkipBody): the next exchange must still be intact
+										rs := rc
+										rs.Skip = true
+										out = append(out, Case{Side: "response", Resp: &rs})
+									}
 								}
 							}
 						}
